@@ -178,6 +178,10 @@ func (g *gen) randomScript(o scriptOpts, c *ctx) []Stmt {
 		case k < 9 && g.dialect == "postgres" && len(t.Cols) > 0:
 			// the Postgres spellings of MODIFY COLUMN, one aspect at a time
 			cn := t.Cols[g.rng.Intn(len(t.Cols))].Name
+			if g.rng.Intn(5) == 0 { // COMMENT ON COLUMN … IS '…' / IS NULL
+				emit(Stmt{Kind: "commentOn", T: t.Name, A: cn, B: g.pick([]string{"note", "", "it's", ""})})
+				continue
+			}
 			switch g.rng.Intn(4) {
 			case 0:
 				emit(Stmt{Kind: "setDefault", T: t.Name, A: cn, Col: ColDef{Opts: []Opt{{Kind: "default", DTag: "num", Val: fmt.Sprint(g.rng.Intn(90))}}}})
